@@ -153,8 +153,12 @@ def run_property(prop, tier='quick', seed=0, only=None, jobs=None, verbose=True)
             continue
         seenk.add(key)
         out_lines.append('KNOWN-FINDING: property=%s %s' % (prop, k.get('what', v['obligation'] + ' ' + v['label'])))
+    seenv = set()
     for v in violations:
         fn = os.path.join(rdir, '%s__%s.json' % (_safe(v['obligation']), _safe(v['label'])))
+        if fn in seenv:
+            continue
+        seenv.add(fn)
         json.dump({'property': prop, 'obligation': v['obligation'], 'label': v['label'],
                    'env': v['witness_float'], 'witness_exact': v['witness'],
                    'assertion': v['assertion'], 'replay': v['replay']}, open(fn, 'w'), indent=1)
